@@ -79,34 +79,132 @@ def lit(node):
     except Exception as e:
         raise Shape('not a literal: %s' % ast.dump(node)[:80]) from e
 
+# ---- runtime access: the modules of the checkout under REPO, imported in this (fresh) translator process.
+# Declarative facts (tables, compiled regular expressions, defaults) are read from the imported objects, so
+# that HOW a constant is spelled in the source (dict literal vs dict(...), hoisted names, split literals)
+# does not matter; statement shapes are still read from the AST, with names resolved through the module.
+_RT = {}
 
+
+def rt(modname):
+    if modname not in _RT:
+        if REPO not in sys.path:
+            sys.path.insert(0, REPO)
+        import importlib
+        for k in [k for k in sys.modules if k == 'ombott' or k.startswith('ombott.')]:
+            if not getattr(sys.modules[k], '__file__', '').startswith(os.path.realpath(REPO)) and \
+                    not getattr(sys.modules[k], '__file__', '').startswith(REPO):
+                del sys.modules[k]
+        try:
+            _RT[modname] = importlib.import_module(modname)
+        except Exception as e:      # the tree does not import: nothing can be extracted from it
+            raise Shape('cannot import %s from %s: %s: %s' % (modname, REPO, type(e).__name__, e))
+        f = getattr(_RT[modname], '__file__', '') or ''
+        if not os.path.realpath(f).startswith(os.path.realpath(REPO)):
+            raise Shape('%s was imported from %s, not from %s' % (modname, f, REPO))
+    return _RT[modname]
+
+
+def val(node, ns=None):
+    """value of a constant expression: a literal, or an expression over names of the given namespace
+    (module globals, class attributes, local constants) — no attribute access on request data, no I/O"""
+    try:
+        return ast.literal_eval(node)
+    except Exception:
+        pass
+    if ns is None:
+        raise Shape('not a literal: %s' % ast.dump(node)[:80])
+    for n in ast.walk(node):
+        if isinstance(n, (ast.Lambda, ast.Await, ast.Yield, ast.YieldFrom, ast.NamedExpr)):
+            raise Shape('not a constant expression: %s' % ast.dump(node)[:80])
+    try:
+        return eval(compile(ast.Expression(node), '<gen_constants>', 'eval'), dict(ns))
+    except Exception as e:
+        raise Shape('cannot evaluate %s: %s' % (ast.unparse(node)[:80], e)) from e
+
+
+def local_consts(fn, ns):
+    """simple `name = <constant expression>` assignments at the top level of a function body, in order"""
+    loc = dict(ns)
+    for st in fn.body:
+        if isinstance(st, ast.Assign) and len(st.targets) == 1 and isinstance(st.targets[0], ast.Name):
+            try:
+                loc[st.targets[0].id] = val(st.value, loc)
+            except Shape:
+                pass
+    return loc
+
+
+FAILED = []          # (group, message): definitions that could not be extracted; only their dependants break
+
+
+def group(name):
+    """decorator: a group of definitions extracted together; a failure drops only this group from Gen.v"""
+    def deco(f):
+        def run(out):
+            part = []
+            try:
+                f(part)
+            except (Shape, SyntaxError, KeyError, IndexError, AttributeError, TypeError, ValueError, OSError) as e:
+                FAILED.append((name, '%s: %s' % (type(e).__name__, e)))
+                out.append('(* group %s: NOT EXTRACTED (fail-closed): %s *)'
+                           % (name, str(e).replace('*)', '* )').replace('(*', '( *')[:300]))
+                return
+            out.extend(part)
+        run.__name__ = f.__name__
+        return run
+    return deco
+
+
+@group('response.tables')
 def gen_response(out):
-    tree, _ = parse('ombott/response.py')
-    cls = find_class(tree, 'BaseResponse')
-    bad = lit(class_assign(cls, 'bad_headers'))
-    if not (isinstance(bad, dict) and all(isinstance(k, int) and isinstance(v, set) for k, v in bad.items())):
+    cls = rt('ombott.response').BaseResponse
+    bad = cls.bad_headers
+    if not (isinstance(bad, dict) and all(isinstance(k, int) and isinstance(v, (set, frozenset))
+                                          and all(isinstance(h, str) for h in v) for k, v in bad.items())):
         raise Shape('bad_headers shape')
     out.append('(* response.py: BaseResponse.bad_headers *)')
     out.append('Definition bad_headers : list (Z * list (list N)) :=')
     out.append('  ' + coq_list('(%d%%Z, %s)' % (k, coq_list(coq_str(h) for h in sorted(v)))
                                for k, v in sorted(bad.items())) + '.')
-    dct = lit(class_assign(cls, 'default_content_type'))
+    dct = cls.default_content_type
+    if not isinstance(dct, str) or not isinstance(cls.default_status, int):
+        raise Shape('default_content_type / default_status')
     out.append('Definition default_content_type : list N := %s.' % coq_str(dct))
-    out.append('Definition default_status : Z := %d%%Z.' % lit(class_assign(cls, 'default_status')))
+    out.append('Definition default_status : Z := %d%%Z.' % cls.default_status)
+
+
+@group('response.blacklist_test')
+def gen_response_blacklist(out):
     # headerlist: how the blacklist is consulted (the name test)
-    hl = find_func(cls, 'headerlist')
+    tree, _ = parse('ombott/response.py')
+    hl = find_func(find_class(tree, 'BaseResponse'), 'headerlist')
     src = ast.unparse(hl)
     if 'h[0].title() not in bad_headers' in src:
         cs = 'false'
     elif 'h[0] not in bad_headers' in src:
         cs = 'true'
     else:
-        raise Shape('headerlist: blacklist name test not recognised')
+        # shape not recognised: ask the code. A name stored in another letter case than the table's
+        # (written into the underlying dict, bypassing the setters' normalisation) is dropped iff the test folds case
+        mod = rt('ombott.response')
+        probe = []
+        for code, names in sorted(mod.BaseResponse.bad_headers.items()):
+            for nm in sorted(names):
+                r = mod.Response()
+                r.status = code
+                odd = nm.lower() if nm.lower() != nm else nm.upper()
+                r.headers.dict[odd] = ['x']
+                present = any(k == odd for k, _ in r.headerlist)
+                probe.append(present)
+        if not probe or len(set(probe)) != 1:
+            raise Shape('headerlist: blacklist name test not recognised and probing is inconclusive')
+        cs = 'true' if probe[0] else 'false'
     out.append('(* headerlist consults the per-status blacklist case-%s *)' % ('sensitively' if cs == 'true' else 'insensitively (h[0].title())'))
     out.append('Definition headerlist_blacklist_case_sensitive : bool := %s.' % cs)
 
 
-def gen_ombott(out):
+def _to_route_ast():
     tree, _ = parse('ombott/ombott.py')
     cls = find_class(tree, 'Ombott')
     # to_route: if verb == 'HEAD': methods = [verb, 'GET', 'ANY'] else: methods = [verb, 'ANY']
@@ -133,7 +231,51 @@ def gen_ombott(out):
             else:
                 res.append(lit(e))
         return res
-    head_c, other_c = cand(iff.body), cand(iff.orelse)
+    return cand(iff.body), cand(iff.orelse)
+
+
+def _to_route_probe():
+    """ask the code: which candidate lists does to_route hand to the router? (a spy router; probe verbs are
+    strings no table can contain, so every occurrence of the verb itself is recognisable)"""
+    mod = rt('ombott.ombott')
+    seen = {}
+
+    class Spy:
+        def resolve(self, path, methods):
+            seen['m'] = list(methods) if not isinstance(methods, str) else [methods]
+            raise KeyError('spy')
+
+    def ask(verb):
+        app = mod.Ombott()
+        app.router = Spy()
+        seen.clear()
+        try:
+            app.to_route('/', verb)
+        except Exception:
+            pass
+        if 'm' not in seen:
+            raise Shape('to_route: probing did not reach router.resolve')
+        return [None if m == verb else m for m in seen['m']]
+    head = ask('HEAD')
+    others = [ask(v) for v in ('GET', 'POST', 'PUT', 'DELETE', 'PATCH', 'OPTIONS', 'ANY', 'Xq7ProbeVerb')]
+    others = [[('ANY' if (v == 'ANY' and m is None) else m) for m in o] for v, o in zip(
+        ('GET', 'POST', 'PUT', 'DELETE', 'PATCH', 'OPTIONS', 'ANY', 'Xq7ProbeVerb'), others)]
+    base = others[-1]
+    # for verb ANY the verb itself and the fallback coincide: compare through the generic verb's shape
+    for v, o in zip(('GET', 'POST', 'PUT', 'DELETE', 'PATCH', 'OPTIONS'), others[:-2]):
+        if o != base:
+            raise Shape('to_route: candidate list depends on the verb beyond the HEAD special case (%s: %s)' % (v, o))
+    if not all(m is None or isinstance(m, str) for m in head + base):
+        raise Shape('to_route: candidates are not method names')
+    return head, base
+
+
+@group('ombott.to_route')
+def gen_to_route(out):
+    try:
+        head_c, other_c = _to_route_ast()
+    except Shape:
+        head_c, other_c = _to_route_probe()
 
     def coq_cands(cs):
         return coq_list('None' if c is None else 'Some %s' % coq_str(c) for c in cs)
@@ -141,6 +283,12 @@ def gen_ombott(out):
     out.append('Definition cands_head : list (option (list N)) := %s.' % coq_cands(head_c))
     out.append('Definition cands_other : list (option (list N)) := %s.' % coq_cands(other_c))
 
+
+@group('ombott.nobody_test')
+def gen_nobody(out):
+    tree, _ = parse('ombott/ombott.py')
+    cls = find_class(tree, 'Ombott')
+    ns = vars(rt('ombott.ombott'))
     # wsgi: the no-body test
     fn = find_func(cls, 'wsgi')
     nobody = None
@@ -161,13 +309,13 @@ def gen_ombott(out):
         if isinstance(n, ast.Compare):
             u = ast.unparse(n)
             if len(n.ops) == 1 and isinstance(n.ops[0], ast.In) and '_status_code' in ast.unparse(n.left):
-                sets.extend(sorted(lit(n.comparators[0])))
+                sets.extend(sorted(val(n.comparators[0], ns)))
             elif len(n.ops) == 2 and '_status_code' in ast.unparse(n.comparators[0]):
-                lo, hi = lit(n.left), lit(n.comparators[1])
+                lo, hi = val(n.left, ns), val(n.comparators[1], ns)
                 lo = lo if isinstance(n.ops[0], ast.LtE) else lo + 1
                 hi = hi if isinstance(n.ops[1], ast.LtE) else hi - 1
                 ranges.append((lo, hi))
-            elif "REQUEST_METHOD" in u and lit(n.comparators[0]) == 'HEAD' and isinstance(n.ops[0], ast.Eq):
+            elif "REQUEST_METHOD" in u and val(n.comparators[0], ns) == 'HEAD' and isinstance(n.ops[0], ast.Eq):
                 head = True
             else:
                 raise Shape('wsgi: unsupported comparison in no-body test: ' + u)
@@ -178,58 +326,145 @@ def gen_ombott(out):
     out.append('Definition nobody_codes : list Z := %s.' % coq_list('%d%%Z' % c for c in sets))
     out.append('Definition nobody_ranges : list (Z * Z) := %s.' % coq_list('(%d%%Z, %d%%Z)' % r for r in ranges))
 
-    cfg = find_class(tree, 'DefaultConfig')
-    em = class_assign(cfg, 'errors_map')
-    if not isinstance(em, ast.Dict):
+
+@group('ombott.config')
+def gen_config(out):
+    mod = rt('ombott.ombott')
+    cfg = mod.DefaultConfig
+    em = cfg.errors_map
+    if not isinstance(em, dict):
         raise Shape('errors_map not a dict')
     rows = []
-    for k, v in zip(em.keys, em.values):
-        kname = ast.unparse(k).split('.')[-1]
-        if not (isinstance(v, ast.Call) and ast.unparse(v.func) == 'HTTPError'):
+    for k, v in em.items():
+        if not (isinstance(k, type) and isinstance(v, mod.HTTPError)):
+            raise Shape('errors_map entry shape')
+        if not (isinstance(v.status_code, int) and isinstance(v.body, str)):
             raise Shape('errors_map value shape')
-        rows.append((kname, lit(v.args[0]), lit(v.args[1])))
+        rows.append((k.__name__, v.status_code, v.body))
     out.append('(* ombott.py: DefaultConfig.errors_map: exception class name -> (status, body) *)')
     out.append('Definition errors_map : list (list N * (Z * list N)) := %s.' %
                coq_list('(%s, (%d%%Z, %s))' % (coq_str(a), b, coq_str(c)) for a, b, c in rows))
-    mm = class_assign(cfg, 'max_memfile_size')
-    out.append('Definition max_memfile_size : Z := %d%%Z.' % eval(compile(ast.Expression(mm), '<c>', 'eval'), {}))
-    out.append('Definition catchall_default : bool := %s.' % ('true' if lit(class_assign(cfg, 'catchall')) else 'false'))
-    out.append('Definition debug_default : bool := %s.' % ('true' if lit(class_assign(cfg, 'debug')) else 'false'))
+    if not isinstance(cfg.max_memfile_size, int):
+        raise Shape('max_memfile_size')
+    out.append('Definition max_memfile_size : Z := %d%%Z.' % cfg.max_memfile_size)
+    out.append('Definition catchall_default : bool := %s.' % ('true' if cfg.catchall else 'false'))
+    out.append('Definition debug_default : bool := %s.' % ('true' if cfg.debug else 'false'))
 
 
-def gen_helpers(out):
+def gen_ombott(out):
+    gen_to_route(out)
+    gen_nobody(out)
+    gen_config(out)
+
+
+HVAL_ORDER = ['\n', '\r', '\0']
+HVAL_TYPE_ORDER = ['str', 'int', 'float', 'bool']
+
+
+@group('helpers.hval')
+def gen_hval(out):
     tree, _ = parse('ombott/common_helpers.py')
+    mod = rt('ombott.common_helpers')
     fn = find_func(tree, '_hval')
+    ns = local_consts(fn, vars(mod))
     forb = []
     types = None
-    for n in ast.walk(fn):
-        if isinstance(n, ast.Compare) and len(n.ops) == 1 and isinstance(n.ops[0], ast.In) \
-                and isinstance(n.comparators[0], ast.Name) and n.comparators[0].id == 'value':
-            forb.append(lit(n.left))
-        if isinstance(n, ast.Call) and ast.unparse(n.func) == 'isinstance' and ast.unparse(n.args[0]) == 'value':
-            types = [ast.unparse(e) for e in n.args[1].elts]
-    if not forb or types is None:
-        raise Shape('_hval shape')
+    try:
+        for n in ast.walk(fn):
+            if isinstance(n, ast.Compare) and len(n.ops) == 1 and isinstance(n.ops[0], ast.In) \
+                    and isinstance(n.comparators[0], ast.Name) and n.comparators[0].id == 'value':
+                c = val(n.left, ns)
+                if not (isinstance(c, str) and len(c) == 1):
+                    raise Shape('_hval: forbidden character')
+                forb.append(c)
+            if isinstance(n, ast.Call) and ast.unparse(n.func) == 'isinstance' and ast.unparse(n.args[0]) == 'value':
+                tv = val(n.args[1], ns)
+                tv = tv if isinstance(tv, tuple) else (tv,)
+                types = [t.__name__ for t in tv]
+        if not forb or types is None:
+            raise Shape('_hval shape')
+    except Shape:
+        # shape not recognised (e.g. the tests became a loop over a constant): ask the code.
+        # Every code point is probed alone inside an ASCII value; every candidate type with a harmless value.
+        f = mod._hval
+        forb = []
+        for cp in list(range(0, 0x3000)) + [0x2028, 0x2029, 0xFEFF, 0xFFFD, 0x10000, 0x10FFFF]:
+            if 0xD800 <= cp <= 0xDFFF:
+                continue
+            try:
+                f('a' + chr(cp) + 'b')
+            except ValueError:
+                forb.append(chr(cp))
+        import decimal
+        import fractions
+        cands = [('str', 'x'), ('int', 7), ('float', 1.5), ('bool', True), ('bytes', b'x'), ('NoneType', None),
+                 ('list', ['x']), ('tuple', ('x',)), ('dict', {}), ('complex', 1j), ('Decimal', decimal.Decimal(1)),
+                 ('Fraction', fractions.Fraction(1, 2)), ('bytearray', bytearray(b'x')), ('object', object())]
+        types = []
+        for nm, v in cands:
+            try:
+                f(v)
+                types.append(nm)
+            except TypeError:
+                pass
+        if not forb or not types:
+            raise Shape('_hval: probing found no forbidden character or no accepted type')
+        forb = [c for c in HVAL_ORDER if c in forb] + sorted(c for c in forb if c not in HVAL_ORDER)
+        types = [t for t in HVAL_TYPE_ORDER if t in types] + sorted(t for t in types if t not in HVAL_TYPE_ORDER)
     out.append('(* common_helpers.py: _hval *)')
     out.append('Definition hval_forbidden : list N := %s.' % coq_list('%d%%N' % ord(c) for c in forb))
     out.append('Definition hval_types : list (list N) := %s.' % coq_list(coq_str(t) for t in types))
-    # html_escape: chain of .replace(a, b)
+
+
+@group('helpers.html_escape')
+def gen_html_escape(out):
+    tree, _ = parse('ombott/common_helpers.py')
+    ns = vars(rt('ombott.common_helpers'))
+    # html_escape: chain of .replace(a, b), possibly split over several `name = ...replace(...)` statements
     fn = find_func(tree, 'html_escape')
-    ret = [n for n in fn.body if isinstance(n, ast.Return)]
-    if len(ret) != 1:
-        raise Shape('html_escape shape')
-    chain = []
-    node = ret[0].value
-    while isinstance(node, ast.Call) and isinstance(node.func, ast.Attribute) and node.func.attr == 'replace':
-        chain.append((lit(node.args[0]), lit(node.args[1])))
-        node = node.func.value
-    if not (isinstance(node, ast.Name) and node.id == 'string'):
-        raise Shape('html_escape: not a pure replace chain')
-    chain.reverse()
+    params = [a.arg for a in fn.args.args]
+    if len(params) != 1:
+        raise Shape('html_escape signature')
+    body = [n for n in fn.body if not (isinstance(n, ast.Expr) and isinstance(n.value, ast.Constant))]
+    bound = {}          # local name -> chain (list of replace pairs applied to the parameter so far)
+
+    def chain_of(node):
+        pairs = []
+        while isinstance(node, ast.Call) and isinstance(node.func, ast.Attribute) and node.func.attr == 'replace':
+            if len(node.args) != 2 or node.keywords:
+                raise Shape('html_escape: replace with a count')
+            pairs.append((val(node.args[0], ns), val(node.args[1], ns)))
+            node = node.func.value
+        if not isinstance(node, ast.Name):
+            raise Shape('html_escape: not a pure replace chain')
+        if node.id == params[0] and node.id not in bound:
+            base = []
+        elif node.id in bound:
+            base = bound[node.id]
+        else:
+            raise Shape('html_escape: chain starts from %s' % node.id)
+        pairs.reverse()
+        return base + pairs
+    chain = None
+    for st in body:
+        if isinstance(st, ast.Assign) and len(st.targets) == 1 and isinstance(st.targets[0], ast.Name):
+            bound[st.targets[0].id] = chain_of(st.value)
+        elif isinstance(st, ast.Return) and chain is None:
+            chain = chain_of(st.value)
+        else:
+            raise Shape('html_escape shape')
+    if not chain or not all(isinstance(a, str) and len(a) == 1 and isinstance(b, str) for a, b in chain):
+        raise Shape('html_escape: chain of single-character replacements expected')
     out.append('Definition html_escape_chain : list (N * list N) := %s.' %
                coq_list('(%d%%N, %s)' % (ord(a), coq_str(b)) for a, b in chain))
 
 
+def gen_helpers(out):
+    gen_hval(out)
+    gen_html_escape(out)
+
+
+@group('errpage')
 def gen_errpage(out):
     p = os.path.join(REPO, 'ombott/error.html')
     with open(p) as f:
@@ -287,14 +522,22 @@ def gen_errpage(out):
                 and kws.get('traceback') == 'traceback' else 'false'))
 
 
-def gen_router(out):
-    tree, _ = parse('ombott/router/radidict.py')
-    cls = find_class(tree, 'RadiDict')
-    init = find_func(cls, '__init__')
-    defaults = {a.arg: lit(d) for a, d in zip(init.args.kwonlyargs, init.args.kw_defaults)}
+@group('router.tokens')
+def gen_router_tokens(out):
+    import inspect
+    cls = rt('ombott.router.radidict').RadiDict
+    sig = inspect.signature(cls.__init__)
+    pt, ps = sig.parameters['param_token'].default, sig.parameters['path_sep'].default
+    if not (isinstance(pt, str) and len(pt) == 1 and isinstance(ps, str) and len(ps) == 1):
+        raise Shape('RadiDict defaults')
     out.append('(* radidict.py *)')
-    out.append('Definition param_token : N := %d%%N.' % ord(defaults['param_token']))
-    out.append('Definition path_sep : N := %d%%N.' % ord(defaults['path_sep']))
+    out.append('Definition param_token : N := %d%%N.' % ord(pt))
+    out.append('Definition path_sep : N := %d%%N.' % ord(ps))
+
+
+@group('router.filter_table_src')
+def gen_filter_table_src(out):
+    # the source text of the table (kept for the pins that read it; breaks on any respelling)
     tree, src = parse('ombott/router/filter_factory.py')
     cls = find_class(tree, 'FilterFactory')
     filt = class_assign(cls, 'filters')
@@ -307,18 +550,71 @@ def gen_router(out):
                coq_list('(%s, %s)' % (coq_str(a), coq_str(b)) for a, b in rows))
 
 
+@group('router.filter_table')
+def gen_filter_table(out):
+    """the filter table as the running code presents it, independent of its spelling: per filter name the mask for
+    no argument and for the argument 'a.b', which converter is applied on the way in ('int' / 'float' / 'none' /
+    'other'), and what the out-formatter makes of sample values ('none' when there is no formatter)"""
+    ff = rt('ombott.router.filter_factory').FilterFactory
+    table = ff.filters
+    if not isinstance(table, dict) or not all(isinstance(k, str) and callable(v) for k, v in table.items()):
+        raise Shape('FilterFactory.filters is not a dict of factories')
+
+    def s_(x):
+        return x if isinstance(x, str) else ('' if x is None else repr(x))
+    rows = []
+    for name, fac in table.items():
+        if name == 'rex':
+            continue            # selector filters are outside the modelled fragment (harness excludes them)
+        try:
+            m0, fin0, fout0 = fac(None)
+            m1, fin1, fout1 = fac('a.b')
+        except Exception as e:
+            raise Shape('filter %s: factory raised %s' % (name, e))
+        kind = 'int' if fin0 is int else 'float' if fin0 is float else 'none' if fin0 is None else 'other'
+        if fout0 is None:
+            probes = 'none'
+        else:
+            vals = []
+            for v in (5, '7', 2.5, '-03', 10.0):
+                try:
+                    vals.append(s_(fout0(v)))
+                except Exception as e:
+                    vals.append('!' + type(e).__name__)
+            probes = '|'.join(vals)
+        rows.append((name, s_(m0), s_(m1), kind, probes))
+    out.append('(* filter_factory.py: FilterFactory.filters as the running code presents it: '
+               '(name, mask(None), mask("a.b"), converter, out-formatter on 5|"7"|2.5|"-03"|10.0) *)')
+    out.append('Definition filter_table : list (list N * (list N * list N * list N * list N)) := %s.' %
+               coq_list('(%s, (%s, %s, %s, %s))' % tuple(coq_str(x) for x in r) for r in rows))
+
+
+def gen_router(out):
+    gen_router_tokens(out)
+    gen_filter_table_src(out)
+    gen_filter_table(out)
+
+
+@group('body.regexes')
 def gen_body(out):
-    tree, _ = parse('ombott/request_pkg/multipart.py')
-    pat = module_assign(tree, 'end_headers_patt')
+    mp = rt('ombott.request_pkg.multipart')
+    bm = rt('ombott.request_pkg.body_mixin')
+
+    def patt(obj, what):
+        p_ = getattr(obj, 'pattern', None)
+        if not isinstance(p_, (str, bytes)):
+            raise Shape('%s is not a compiled regular expression' % what)
+        if getattr(obj, 'flags', 0) & ~32:     # re.UNICODE (32) is implied for str patterns
+            raise Shape('%s carries flags %r' % (what, obj.flags))
+        return p_
     out.append('(* multipart.py / body_mixin.py regex source texts (pinned by the models that re-implement them) *)')
-    out.append('Definition end_headers_patt_src : list N := %s.' % coq_str(lit(pat.args[0])))
-    cls = find_class(tree, 'FieldStorage')
-    out.append('Definition field_opt_patt_src : list N := %s.' % coq_str(lit(class_assign(cls, '_patt').args[0])))
-    tree, _ = parse('ombott/request_pkg/body_mixin.py')
+    out.append('Definition end_headers_patt_src : list N := %s.' % coq_str(patt(mp.end_headers_patt, 'end_headers_patt')))
+    out.append('Definition field_opt_patt_src : list N := %s.' % coq_str(patt(mp.FieldStorage._patt, 'FieldStorage._patt')))
     out.append('Definition boundary_patt_src : list N := %s.' %
-               coq_str(lit(module_assign(tree, 'MULTIPART_BOUNDARY_PATT').args[0])))
+               coq_str(patt(bm.MULTIPART_BOUNDARY_PATT, 'MULTIPART_BOUNDARY_PATT')))
 
 
+@group('request.env_changed')
 def gen_request(out):
     """request.py: BaseRequest._on_env_changed — which cached views an environ key invalidates;
     body_mixin.py: the cache key of BodyMixin._body and the shape of BodyMixin.body (cached object, rewound)."""
@@ -407,10 +703,11 @@ def gen_request(out):
     out.append('Definition body_property_rewinds_cached : bool := %s.' % ('true' if ok else 'false'))
 
 
-def gen_errtexts(out):
-    """the texts of the errors the framework itself creates (status code, body) and of the last-resort page"""
+def _framework_errors():
+    """the texts of the errors the framework itself creates (status code, body)"""
     tree, _ = parse('ombott/ombott.py')
     cls = find_class(tree, 'Ombott')
+    ns = vars(rt('ombott.ombott'))
     rows = []
     prefix = None
     for fname in ('_handle', '_cast', 'handler'):
@@ -418,39 +715,70 @@ def gen_errtexts(out):
         for n in ast.walk(fn):
             if isinstance(n, ast.Call) and ast.unparse(n.func) == 'HTTPError' and len(n.args) >= 2:
                 code, body = n.args[0], n.args[1]
-                if isinstance(code, ast.Constant) and isinstance(code.value, int):
-                    if isinstance(body, ast.Constant) and isinstance(body.value, str):
-                        rows.append((fname, code.value, body.value))
-                    elif isinstance(body, ast.JoinedStr):
+                try:
+                    cv = val(code, ns)
+                except Shape:
+                    continue            # a computed status (e.g. the router's answer): not a framework text
+                if isinstance(cv, int) and not isinstance(cv, bool):
+                    if isinstance(body, ast.JoinedStr):
                         lit0 = body.values[0]
                         if not (isinstance(lit0, ast.Constant) and len(body.values) == 2
                                 and ast.unparse(body.values[1].value) == 'type(first)'):
                             raise Shape('%s: unexpected f-string error body %s' % (fname, ast.unparse(body)))
-                        prefix = (code.value, lit0.value)
+                        prefix = (cv, lit0.value)
                     else:
-                        raise Shape('%s: HTTPError body is neither a literal nor the known f-string: %s'
-                                    % (fname, ast.unparse(body)))
+                        try:
+                            bv = val(body, ns)
+                        except Shape:
+                            raise Shape('%s: HTTPError body is neither a constant nor the known f-string: %s'
+                                        % (fname, ast.unparse(body)))
+                        if not isinstance(bv, str):
+                            raise Shape('%s: HTTPError body is not text' % fname)
+                        rows.append((fname, cv, bv))
     if prefix is None:
         raise Shape('_cast: unsupported-type error not found')
     rtree, _ = parse('ombott/router/radirouter.py')
+    rns = vars(rt('ombott.router.radirouter'))
     res = find_func(find_class(rtree, 'RadiRouter'), 'resolve')
     for n in ast.walk(res):
-        if isinstance(n, ast.List) and len(n.elts) == 3 and isinstance(n.elts[0], ast.Constant) \
-                and isinstance(n.elts[0].value, int) and isinstance(n.elts[1], ast.Constant):
-            rows.append(('resolve', n.elts[0].value, n.elts[1].value))
+        if isinstance(n, ast.List) and len(n.elts) == 3:
+            try:
+                c0, t0 = val(n.elts[0], rns), val(n.elts[1], rns)
+            except Shape:
+                continue
+            if isinstance(c0, int) and isinstance(t0, str):
+                rows.append(('resolve', c0, t0))
     if not any(r[1] == 404 for r in rows) or not any(r[1] == 405 for r in rows):
         raise Shape('resolve: 404/405 triples not found')
+    return rows, prefix
+
+
+@group('errtexts.framework_errors')
+def gen_framework_errors(out):
+    rows, prefix = _framework_errors()
     out.append('(* errors the framework creates itself: (where, status code, body text) *)')
     out.append('Definition framework_errors : list (list N * (Z * list N)) := %s.' %
                coq_list('(%s, (%d%%Z, %s))' % (coq_str(a), b, coq_str(c)) for a, b, c in rows))
     out.append('Definition unsupported_type_error : Z * list N := (%d%%Z, %s).' % (prefix[0], coq_str(prefix[1])))
-    # last-resort page
+
+
+@group('errtexts.critical_page')
+def gen_critical_page(out):
+    # last-resort page: its texts may sit in the function or in module-level constants the function names
+    tree, _ = parse('ombott/ombott.py')
+    cls = find_class(tree, 'Ombott')
+    mod = rt('ombott.ombott')
     w = find_func(cls, 'wsgi')
     src = ast.unparse(w)
     strs = [n.value for n in ast.walk(w) if isinstance(n, ast.Constant) and isinstance(n.value, str)]
-    crit = [x for x in strs if 'Critical error' in x]
-    dbg = [x for x in strs if '<h2>Error:</h2>' in x]
-    st = [x for x in strs if x.startswith('500 ')]
+    named = {}
+    for n in ast.walk(w):
+        if isinstance(n, ast.Name) and isinstance(getattr(mod, n.id, None), (str, tuple, list)):
+            named[n.id] = getattr(mod, n.id)
+    strs += [v for v in named.values() if isinstance(v, str)]
+    crit = sorted({x for x in strs if 'Critical error' in x})
+    dbg = sorted({x for x in strs if '<h2>Error:</h2>' in x})
+    st = sorted({x for x in strs if x.startswith('500 ')})
     if len(crit) != 1 or len(dbg) != 1 or len(st) != 1:
         raise Shape('wsgi: last-resort page texts not found')
     if "html_escape(environ.get('PATH_INFO', '/'))" not in src:
@@ -461,9 +789,18 @@ def gen_errtexts(out):
     hdrs = [n for n in ast.walk(w) if isinstance(n, ast.Assign) and ast.unparse(n.targets[0]) == 'headers']
     if len(hdrs) != 1:
         raise Shape('wsgi: last-resort headers')
-    hv = lit(hdrs[0].value)
+    hv = val(hdrs[0].value, vars(mod))
+    if not (isinstance(hv, list) and all(isinstance(x, tuple) and len(x) == 2 and all(isinstance(y, str) for y in x)
+                                         for x in hv)):
+        raise Shape('wsgi: last-resort headers are not a list of string pairs')
     out.append('Definition critical_headers : list (list N * list N) := %s.' %
                coq_list('(%s, %s)' % (coq_str(a), coq_str(b)) for a, b in hv))
+
+
+@group('errtexts.json_error')
+def gen_json_error(out):
+    tree, _ = parse('ombott/ombott.py')
+    cls = find_class(tree, 'Ombott')
     # the JSON branch of default_error_handler
     d = find_func(cls, 'default_error_handler')
     dsrc = ast.unparse(d)
@@ -473,9 +810,17 @@ def gen_errtexts(out):
     for n in ast.walk(d):
         if isinstance(n, ast.Call) and ast.unparse(n.func) == 'dict':
             keys = [k.arg for k in n.keywords]
+        elif isinstance(n, ast.Dict) and n.keys and all(isinstance(k, ast.Constant) and isinstance(k.value, str)
+                                                      for k in n.keys) and not keys:
+            keys = [k.value for k in n.keys]
     if not keys:
         raise Shape('default_error_handler: json dict not found')
     out.append('Definition json_error_keys : list (list N) := %s.' % coq_list(coq_str(k) for k in keys))
+
+
+@group('errtexts.status_lines')
+def gen_status_lines(out):
+    rows, prefix = _framework_errors()
     # status lines the framework relies on (http.client.responses is CPython data: pinned here from the running interpreter)
     import http.client
     codes = sorted({r[1] for r in rows} | {prefix[0], 413, 400})
@@ -483,6 +828,14 @@ def gen_errtexts(out):
                coq_list('(%d%%Z, %s)' % (c, coq_str('%d %s' % (c, http.client.responses[c]))) for c in codes))
 
 
+def gen_errtexts(out):
+    gen_framework_errors(out)
+    gen_critical_page(out)
+    gen_json_error(out)
+    gen_status_lines(out)
+
+
+@group('ombott.passthrough')
 def gen_passthrough(out):
     """ombott.py: the `except <classes>: raise` clauses of Ombott._handle, Ombott._cast and Ombott.wsgi — the
     exception classes that are passed on to the server instead of becoming an error page (cluster wsgiD1, C03).
@@ -523,45 +876,53 @@ def gen_passthrough(out):
 def generate():
     out = ['(* GENERATED by tools/gen_constants.py from the current working tree of the repository - do not edit *)',
            'From Coq Require Import List ZArith NArith.', 'Import ListNotations.', '']
-    for g in (gen_response, gen_ombott, gen_helpers, gen_errpage, gen_router, gen_body, gen_request, gen_errtexts,
-              gen_passthrough):
+    for g in (gen_response, gen_response_blacklist, gen_ombott, gen_helpers, gen_errpage, gen_router, gen_body,
+              gen_request, gen_errtexts, gen_passthrough):
+        n0 = len(out)
         g(out)
-        out.append('')
+        if len(out) > n0:
+            out.append('')
     return '\n'.join(out)
 
 
+def write_if_changed(path, text):
+    old = None
+    if os.path.exists(path):
+        with open(path) as f:
+            old = f.read()
+    if old != text:
+        os.makedirs(os.path.dirname(path), exist_ok=True)
+        with open(path, 'w') as f:
+            f.write(text)
+        print('gen_constants: wrote', path)
+
+
 def main():
+    """exit 0 also when single groups could not be extracted: their definitions are then absent from Gen.v, so
+    exactly the proofs that depend on them stop compiling (reported per property by the check); the failed groups
+    are listed on stderr and in gen/GEN_STATUS.json.  Exit 2 only when nothing at all could be generated."""
     try:
         text = generate()
     except (Shape, SyntaxError, KeyError, IndexError, AttributeError, TypeError, ValueError, OSError) as e:
         sys.stderr.write('gen_constants: FAIL-CLOSED: %s: %s\n' % (type(e).__name__, e))
         return 2
     out = os.path.normpath(OUT)
-    old = None
-    if os.path.exists(out):
-        with open(out) as f:
-            old = f.read()
-    if old != text:
-        os.makedirs(os.path.dirname(out), exist_ok=True)
-        with open(out, 'w') as f:
-            f.write(text)
-        print('gen_constants: wrote', out)
+    write_if_changed(out, text)
     # statements of small loops translated into Gallina (tools/gen_loops.py) -> GenLoops.v beside Gen.v
     import gen_loops
+    lout = os.path.join(os.path.dirname(out), 'GenLoops.v')
     try:
         ltext = gen_loops.generate(parse)
     except (gen_loops.Shape, Shape, SyntaxError, KeyError, IndexError, AttributeError, TypeError, ValueError, OSError) as e:
-        sys.stderr.write('gen_loops: FAIL-CLOSED: %s: %s\n' % (type(e).__name__, e))
-        return 2
-    lout = os.path.join(os.path.dirname(out), 'GenLoops.v')
-    lold = None
-    if os.path.exists(lout):
-        with open(lout) as f:
-            lold = f.read()
-    if lold != ltext:
-        with open(lout, 'w') as f:
-            f.write(ltext)
-        print('gen_constants: wrote', lout)
+        FAILED.append(('loops.iter_body', '%s: %s' % (type(e).__name__, e)))
+        ltext = ('(* GENERATED by tools/gen_loops.py - the loop could NOT be translated (fail-closed): %s *)\n'
+                 % str(e).replace('*)', '* )').replace('(*', '( *')[:300])
+    write_if_changed(lout, ltext)
+    import json
+    with open(os.path.join(os.path.dirname(out), 'GEN_STATUS.json'), 'w') as f:
+        json.dump(dict(failed=[dict(group=g, error=m) for g, m in FAILED]), f, indent=1)
+    for g, m in FAILED:
+        sys.stderr.write('gen_constants: FAIL-CLOSED (group %s dropped): %s\n' % (g, m))
     return 0
 
 
